@@ -303,6 +303,43 @@ func NewOutcome() *Outcome {
 	return &Outcome{Diags: map[string][]Diag{}, Errors: map[string][]string{}}
 }
 
+// MergeVariants folds "p [p.test]" into "p" (and "p_test [p.test]" into
+// "p_test"), identical entries de-duplicated. The standalone driver analyses
+// and reports both the plain package and its test variant; `go vet` analyses
+// only the test variant when there is one and reports it under the plain ID -
+// so ACROSS drivers only the merged view is comparable (C06). Within one
+// driver the per-ID view is kept (C11).
+func (o *Outcome) MergeVariants() *Outcome {
+	m := NewOutcome()
+	strip := func(id string) string {
+		if i := strings.Index(id, " ["); i >= 0 {
+			return id[:i]
+		}
+		return id
+	}
+	for id, ds := range o.Diags {
+		k := strip(id)
+		m.Diags[k] = append(m.Diags[k], ds...)
+	}
+	for id, es := range o.Errors {
+		k := strip(id)
+		for _, e := range es {
+			dup := false
+			for _, x := range m.Errors[k] {
+				if x == e {
+					dup = true
+				}
+			}
+			if !dup {
+				m.Errors[k] = append(m.Errors[k], e)
+			}
+		}
+	}
+	m.Actions, m.RawDiags = o.Actions, o.RawDiags
+	m.Normalise()
+	return m
+}
+
 func (o *Outcome) Normalise() {
 	for p, ds := range o.Diags {
 		seen := map[string]bool{}
